@@ -21,6 +21,7 @@
 (*   outer goroutine:      SelectConn   `case conn := <-connChan` (Store + wrapTransferInput)*)
 (*                 TimerFires   `case <-time.After(time.Second): timeout = true`             *)
 (*   SendAction    sendAction: tunnelInitWG.Wait(); tunnel := tunnelConn.Load() != nil       *)
+(*   CCleanup      cleanup(): the adopted connection is closed when the transfer is over     *)
 (*   SRecvAction   recvAction on the server: tunnelConnected = action.TunnelConnected        *)
 (*   InbandS/InbandC  addReceivedData(buf, false): dropped once tunnelConnected              *)
 (* Environment: Arrive, DialerWrite, DialerClose (connection attempts with scripts),         *)
@@ -35,7 +36,8 @@ CONSTANTS N,             \* connections 1..N
           Outcomes,      \* connector outcomes explored
           Rendezvous,    \* TRUE: a Write completes only when the peer Reads (net.Pipe);
                          \* FALSE: writes are buffered and may be coalesced by one Read (TCP)
-          MaxData        \* data chunks a dialer may send after its script
+          MaxData,       \* data chunks a dialer may send after its script
+          Pumps          \* BOOLEAN: explore the in-band / tunnel data pumps (InbandS, InbandC, CPump)
 
 Conns  == 1..N
 Strays == 2..N
@@ -71,7 +73,8 @@ VARIABLES
     tunnelS,    \* server's t.tunnelConn (0 = nil)
     wrappedS,   \* connections the server runs wrapTransferInput(.., true) on
     cpc,        \* connector goroutine: connector | write | wcheck | read | exit
-    creply,     \* what the client's Read will return: none | hello | other | eof
+    creply,     \* what the client's Read will return: none | hello | other
+    pclosed,    \* the client's end of connection 1 was closed by the other side
     chan,       \* connChan: empty | nil | conn
     timeout,    \* the `timeout` flag
     selpc,      \* outer goroutine: select | done
@@ -83,7 +86,7 @@ VARIABLES
     fedS, fedC  \* sources whose bytes reached the buffer (0 = in-band, i = connection i)
 
 srv  == <<hpc, first, replied, unread, wn, dclosed, backlog, apc, acur, lopen, tunnelS, wrappedS>>
-cli  == <<cpc, creply, chan, timeout, selpc, tunnelC, cclosed>>
+cli  == <<cpc, creply, pclosed, chan, timeout, selpc, tunnelC, cclosed>>
 agr  == <<act, sActSeen, sAgreed, cAgreed>>
 obs  == <<fedS, fedC>>
 cfgv == <<script, outcome>>
@@ -96,7 +99,7 @@ InitWith(sc, oc) ==
     /\ replied = [i \in Conns |-> FALSE] /\ unread = [i \in Conns |-> <<>>]
     /\ wn = [i \in Conns |-> 0] /\ dclosed = [i \in Conns |-> FALSE]
     /\ backlog = <<>> /\ apc = "accept" /\ acur = 0 /\ lopen = TRUE /\ tunnelS = 0 /\ wrappedS = {}
-    /\ cpc = "connector" /\ creply = "none" /\ chan = "empty" /\ timeout = FALSE /\ selpc = "select"
+    /\ cpc = "connector" /\ creply = "none" /\ pclosed = FALSE /\ chan = "empty" /\ timeout = FALSE /\ selpc = "select"
     /\ tunnelC = 0 /\ cclosed = FALSE
     /\ act = "none" /\ sActSeen = FALSE /\ sAgreed = FALSE /\ cAgreed = FALSE
     /\ fedS = {} /\ fedC = {}
@@ -113,7 +116,7 @@ Reset(sc, oc) ==
     /\ replied' = [i \in Conns |-> FALSE] /\ unread' = [i \in Conns |-> <<>>]
     /\ wn' = [i \in Conns |-> 0] /\ dclosed' = [i \in Conns |-> FALSE]
     /\ backlog' = <<>> /\ apc' = "accept" /\ acur' = 0 /\ lopen' = TRUE /\ tunnelS' = 0 /\ wrappedS' = {}
-    /\ cpc' = "connector" /\ creply' = "none" /\ chan' = "empty" /\ timeout' = FALSE /\ selpc' = "select"
+    /\ cpc' = "connector" /\ creply' = "none" /\ pclosed' = FALSE /\ chan' = "empty" /\ timeout' = FALSE /\ selpc' = "select"
     /\ tunnelC' = 0 /\ cclosed' = FALSE
     /\ act' = "none" /\ sActSeen' = FALSE /\ sAgreed' = FALSE /\ cAgreed' = FALSE
     /\ fedS' = {} /\ fedC' = {}
@@ -243,17 +246,18 @@ CReturn ==
             THEN /\ chan' = "nil" /\ cpc' = "exit" /\ CloseConn1
             ELSE /\ cpc' = "write" /\ UNCHANGED <<chan, cclosed, dclosed, unread>>
     /\ UNCHANGED <<cfgv, hpc, first, replied, wn, backlog, apc, acur, lopen, tunnelS, wrappedS,
-                   creply, timeout, selpc, tunnelC, agr, obs>>
+                   creply, pclosed, timeout, selpc, tunnelC, agr, obs>>
 
 (* conn.Write(clientHello) completes (c = what was written, as seen by the other end) *)
 CWrite(c) ==
     /\ cpc = "write" /\ outcome \in {"good", "badreply", "noreply"}
+    /\ Rendezvous => ~pclosed
     /\ wn' = [wn EXCEPT ![1] = @ + 1]
     /\ cpc' = "wcheck"
     /\ unread' = [unread EXCEPT ![1] = IF outcome # "good" \/ hpc[1] = "closed" THEN <<>>
                                        ELSE IF Rendezvous THEN <<c>> ELSE Append(@, c)]
     /\ UNCHANGED <<cfgv, hpc, first, replied, dclosed, backlog, apc, acur, lopen, tunnelS, wrappedS,
-                   creply, chan, timeout, selpc, tunnelC, cclosed, agr, obs>>
+                   creply, pclosed, chan, timeout, selpc, tunnelC, cclosed, agr, obs>>
 
 (* `if err != nil || timeout` after the Write *)
 CCheck2 ==
@@ -262,40 +266,41 @@ CCheck2 ==
        THEN /\ chan' = "nil" /\ cpc' = "exit" /\ CloseConn1
        ELSE /\ cpc' = "read" /\ UNCHANGED <<chan, cclosed, dclosed, unread>>
     /\ UNCHANGED <<cfgv, hpc, first, replied, wn, backlog, apc, acur, lopen, tunnelS, wrappedS,
-                   creply, timeout, selpc, tunnelC, agr, obs>>
+                   creply, pclosed, timeout, selpc, tunnelC, agr, obs>>
 
-(* the Write fails: dead connection, or the server already closed it *)
+(* the Write fails: dead connection, or the other side already closed it *)
 CWriteErr ==
-    /\ cpc = "write" /\ (outcome = "dead" \/ (outcome = "good" /\ hpc[1] = "closed"))
+    /\ cpc = "write" /\ (outcome = "dead" \/ pclosed)
     /\ chan' = "nil" /\ cpc' = "exit" /\ CloseConn1
     /\ UNCHANGED <<cfgv, hpc, first, replied, wn, backlog, apc, acur, lopen, tunnelS, wrappedS,
-                   creply, timeout, selpc, tunnelC, agr, obs>>
+                   creply, pclosed, timeout, selpc, tunnelC, agr, obs>>
 
 (* what arrives at the client's end of connection 1 *)
 ProxyReply ==
-    /\ creply = "none" /\ outcome = "good" /\ replied[1]
+    /\ creply = "none" /\ ~pclosed /\ outcome = "good" /\ replied[1]
     /\ creply' = "hello"
-    /\ UNCHANGED <<cfgv, srv, cpc, chan, timeout, selpc, tunnelC, cclosed, agr, obs>>
+    /\ UNCHANGED <<cfgv, srv, cpc, pclosed, chan, timeout, selpc, tunnelC, cclosed, agr, obs>>
 
+(* the server closed connection 1 and the client's end learns of it *)
 ProxyEof ==
-    /\ creply = "none" /\ outcome = "good" /\ hpc[1] = "closed" /\ ~replied[1]
-    /\ creply' = "eof"
-    /\ UNCHANGED <<cfgv, srv, cpc, chan, timeout, selpc, tunnelC, cclosed, agr, obs>>
+    /\ ~pclosed /\ outcome = "good" /\ hpc[1] = "closed"
+    /\ pclosed' = TRUE
+    /\ UNCHANGED <<cfgv, srv, cpc, creply, chan, timeout, selpc, tunnelC, cclosed, agr, obs>>
 
 RogueReply ==
     /\ creply = "none" /\ outcome = "badreply" /\ cpc = "read"
     /\ creply' = "other"
-    /\ UNCHANGED <<cfgv, srv, cpc, chan, timeout, selpc, tunnelC, cclosed, agr, obs>>
+    /\ UNCHANGED <<cfgv, srv, cpc, pclosed, chan, timeout, selpc, tunnelC, cclosed, agr, obs>>
 
 (* conn.Read returns; `if err != nil || string(buf[:n]) != serverHello || timeout`           *)
 CRead ==
-    /\ cpc = "read" /\ creply # "none"
+    /\ cpc = "read" /\ (creply # "none" \/ pclosed)
     /\ cpc' = "exit"
     /\ IF creply = "hello" /\ ~timeout
        THEN /\ chan' = "conn" /\ UNCHANGED <<cclosed, dclosed, unread>>
        ELSE /\ chan' = "nil" /\ CloseConn1
     /\ UNCHANGED <<cfgv, hpc, first, replied, wn, backlog, apc, acur, lopen, tunnelS, wrappedS,
-                   creply, timeout, selpc, tunnelC, agr, obs>>
+                   creply, pclosed, timeout, selpc, tunnelC, agr, obs>>
 
 (* Client: outer goroutine                                                                   *)
 
@@ -303,12 +308,19 @@ SelectConn ==
     /\ selpc = "select" /\ chan # "empty"
     /\ selpc' = "done"
     /\ tunnelC' = IF chan = "conn" THEN 1 ELSE 0
-    /\ UNCHANGED <<cfgv, srv, cpc, creply, chan, timeout, cclosed, agr, obs>>
+    /\ UNCHANGED <<cfgv, srv, cpc, creply, pclosed, chan, timeout, cclosed, agr, obs>>
 
 TimerFires ==
     /\ selpc = "select"
     /\ selpc' = "done" /\ timeout' = TRUE
-    /\ UNCHANGED <<cfgv, srv, cpc, creply, chan, tunnelC, cclosed, agr, obs>>
+    /\ UNCHANGED <<cfgv, srv, cpc, creply, pclosed, chan, tunnelC, cclosed, agr, obs>>
+
+(* cleanup() at the end of the transfer closes the adopted connection *)
+CCleanup ==
+    /\ tunnelC = 1 /\ act # "none" /\ ~cclosed
+    /\ CloseConn1
+    /\ UNCHANGED <<cfgv, hpc, first, replied, wn, backlog, apc, acur, lopen, tunnelS, wrappedS,
+                   cpc, creply, pclosed, chan, timeout, selpc, tunnelC, agr, obs>>
 
 (* wrapTransferInput(t, conn, true) on the client: bytes of the adopted connection *)
 CPump ==
@@ -354,8 +366,9 @@ Next ==
     \/ AAccept \/ AAcceptErr \/ ACheck
     \/ \E i \in Conns : HRead(i) \/ HReply(i) \/ HReplyFail(i) \/ HCas(i) \/ HCloseListener(i) \/ SPump(i)
     \/ CDial \/ CReturn \/ CWrite("hello") \/ CCheck2 \/ CWriteErr \/ ProxyReply \/ ProxyEof \/ RogueReply \/ CRead
-    \/ SelectConn \/ TimerFires \/ CPump
-    \/ SendAction \/ SRecvAction \/ InbandS \/ InbandC
+    \/ SelectConn \/ TimerFires \/ CCleanup
+    \/ SendAction \/ SRecvAction
+    \/ (Pumps /\ (CPump \/ InbandS \/ InbandC))
 
 Spec == Init /\ [][Next]_vars
 
